@@ -263,7 +263,8 @@ Definition cont_ok (kv : store) (c : cont) : Prop :=
 (* the wrapper: flag, watcher, returned context, session *)
 Definition wrap_ok (kv : store) (c : cont) : Prop :=
   (c_pc c = Held -> c_locked c = true /\
-     ((c_w c = WWatching /\ c_ctx c = CtxLive) \/ (c_w c = WExit /\ c_ctx c = CtxSessionDone))) /\
+     ((c_w c = WWatching /\ c_ctx c = CtxLive) \/
+      ((c_w c = WCancelling \/ c_w c = WExit) /\ c_ctx c = CtxSessionDone))) /\
   (c_ctx c = CtxSessionDone -> c_sdone c = true) /\
   (c_sdone c = true -> dead kv (c_lease c)) /\
   c_ctx c <> CtxOther.
@@ -601,6 +602,15 @@ Proof.
       * apply (sys_ok_upd none_removed s i c); auto; try apply ext_refl; try (intros k []).
         -- apply cont_ok_unqueued; simpl; not_queued.
         -- apply (wrap_ok_same (s_kv s) c); auto; simpl; congruence.
+  - (* LCancel *)
+    inv_nth H c Hc. destruct (c_w c) eqn:Hw; try discriminate.
+    assert (Hin : In c (s_cs s)) by (eapply nth_error_In; eauto). destruct (Hcs c Hin) as [Cc Wc].
+    destruct Wc as (W1 & W2 & W3 & W4).
+    unfold with_c in H; inversion H; subst s'; clear H.
+    apply (sys_ok_upd none_removed s i c); auto; try apply ext_refl; try (intros k []);
+      try (apply (cont_ok_same (s_kv s) c); auto; fail).
+    unfold wrap_ok; simpl. split; [|split; [auto|split; auto]].
+    intros Hh. destruct (W1 Hh) as [Hl [[Hx _]|[_ Hc']]]; [congruence|]. split; auto.
 Qed.
 
 Theorem reachable_ok : forall s, reachable step sys_init s -> sys_ok s.
@@ -764,32 +774,61 @@ Qed.
 (* ================= C19, etcd backend ================= *)
 
 (* the helper steps that deliver the loss to holder i: one iteration of the
-   session keepalive loop (if it has not yet seen the loss), then the watcher *)
+   session keepalive loop (if it has not yet seen the loss), the watcher (sets the
+   error), the watcher's deferred cancel (closes Done) *)
 Definition notify_steps (i : nat) (c : cont) : list label :=
-  if c_sdone c then [LWatch i] else [LKeepAlive i; LWatch i].
+  match c_w c with
+  | WCancelling => [LCancel i]
+  | _ => if c_sdone c then [LWatch i; LCancel i] else [LKeepAlive i; LWatch i; LCancel i]
+  end.
 
 Theorem etcd_notify : forall s i c,
   reachable step sys_init s ->
-  nth_error (s_cs s) i = Some c -> c_pc c = Held -> dead (s_kv s) (c_lease c) -> c_ctx c = CtxLive ->
+  nth_error (s_cs s) i = Some c -> c_pc c = Held -> dead (s_kv s) (c_lease c) ->
+  ctx_view c <> CtxSessionDone ->
   exists s' c', run step s (notify_steps i c) = Some s' /\
-                nth_error (s_cs s') i = Some c' /\ c_ctx c' = CtxSessionDone /\ c_pc c' = Held.
+                nth_error (s_cs s') i = Some c' /\ ctx_view c' = CtxSessionDone /\ c_pc c' = Held.
 Proof.
   intros s i c Hr Hi Hpc Hd Hctx.
   apply reachable_ok in Hr. destruct Hr as (Hkv & Hnd & Hrange & Hcs).
   destruct (Hcs c (nth_error_In _ _ Hi)) as [_ (W1 & W2 & W3 & W4)].
-  destruct (W1 Hpc) as [Hlk [[Hw _]|[_ Hx]]]; [|congruence].
   assert (Hlen : (i < length (s_cs s))%nat) by (apply nth_error_Some; congruence).
-  unfold notify_steps. destruct (c_sdone c) eqn:Hsd.
-  - simpl. rewrite Hi, Hw, Hsd, Hlk. unfold with_c.
+  destruct (W1 Hpc) as [Hlk [[Hw Hlive]|[[Hw|Hw] Hx]]].
+  - (* watcher still waiting *)
+    unfold notify_steps. rewrite Hw. destruct (c_sdone c) eqn:Hsd.
+    + simpl. rewrite Hi, Hw, Hsd, Hlk. unfold with_c. simpl.
+      rewrite nth_error_upd_same by auto. simpl. unfold with_c.
+      eexists. eexists. split; [reflexivity|]. simpl.
+      split; [apply nth_error_upd_same; rewrite length_upd; auto|]. split; auto.
+    + simpl. rewrite Hi, Hsd.
+      destruct (e_keepalive (s_kv s) (c_lease c)) as [alive kv'] eqn:Hka.
+      destruct (keepalive_ok _ _ _ _ Hkv Hka) as (_ & _ & _ & _ & Hb).
+      rewrite Hd in Hb. subst alive. unfold with_c. simpl.
+      rewrite nth_error_upd_same by auto. simpl. rewrite Hw, Hlk. unfold with_c. simpl.
+      rewrite nth_error_upd_same by (rewrite length_upd; auto). simpl. unfold with_c.
+      eexists. eexists. split; [reflexivity|]. simpl.
+      split; [apply nth_error_upd_same; rewrite !length_upd; auto|]. split; auto.
+  - (* error set, Done not yet closed *)
+    unfold notify_steps. rewrite Hw. simpl. rewrite Hi, Hw. unfold with_c.
     eexists. eexists. split; [reflexivity|]. simpl.
-    split; [apply nth_error_upd_same; auto|]. split; auto.
-  - simpl. rewrite Hi, Hsd.
-    destruct (e_keepalive (s_kv s) (c_lease c)) as [alive kv'] eqn:Hka.
-    destruct (keepalive_ok _ _ _ _ Hkv Hka) as (_ & _ & _ & _ & Hb).
-    rewrite Hd in Hb. subst alive. unfold with_c. simpl.
-    rewrite nth_error_upd_same by auto. simpl. rewrite Hw, Hlk. unfold with_c.
-    eexists. eexists. split; [reflexivity|]. simpl.
-    split; [apply nth_error_upd_same; rewrite length_upd; auto|]. split; auto.
+    split; [apply nth_error_upd_same; auto|]. unfold ctx_view; simpl. rewrite Hx. split; auto.
+  - exfalso. apply Hctx. unfold ctx_view. rewrite Hx, Hw. reflexivity.
+Qed.
+
+(* the watcher's two steps neither read nor write the store: they are enabled and
+   have the same effect whatever the store contains, in particular when etcd is
+   unreachable — no store call precedes the cancel *)
+Theorem etcd_watch_cancel_store_free : forall s kv' i l,
+  l = LWatch i \/ l = LCancel i ->
+  step (mkSys kv' (s_cs s)) l =
+  match step s l with Some s' => Some (mkSys kv' (s_cs s')) | None => None end /\
+  (forall s', step s l = Some s' -> s_kv s' = s_kv s).
+Proof.
+  intros s kv' i l [->| ->]; simpl; destruct (nth_error (s_cs s) i) as [c|]; try (split; [reflexivity|discriminate]);
+    destruct (c_w c); try (split; [reflexivity|discriminate]).
+  - destruct (c_sdone c); [|split; [reflexivity|discriminate]].
+    destruct (c_locked c); unfold with_c; simpl; (split; [reflexivity|intros s' E; inversion E; reflexivity]).
+  - unfold with_c; simpl. split; [reflexivity|intros s' E; inversion E; reflexivity].
 Qed.
 
 (* a context cancelled with ErrLockSessionDone means the lease is really gone *)
@@ -802,17 +841,18 @@ Proof.
   destruct (Hcs c (nth_error_In _ _ Hi)) as [_ (W1 & W2 & W3 & W4)]. auto.
 Qed.
 
-(* overlap bound: if two contenders are in their critical sections with live
-   contexts and j's lease is live, then i's lease is gone and i's notification is
-   still in flight (its watcher has not yet run); by [etcd_notify] it is
-   delivered by at most two helper steps of i, which are enabled *)
+(* overlap bound: if two contenders are in their critical sections, j with a live
+   lease and i not yet woken up (Done of its context not closed), then i's lease
+   is gone and i's notification is in flight (its watcher has not finished); by
+   [etcd_notify] it is delivered by at most three helper steps of i, which are
+   enabled and (the last two) independent of the store *)
 Theorem etcd_overlap_bound : forall s i j a b,
   reachable step sys_init s ->
   nth_error (s_cs s) i = Some a -> nth_error (s_cs s) j = Some b -> i <> j ->
-  c_pc a = Held -> c_ctx a = CtxLive -> holds s b = true ->
-  dead (s_kv s) (c_lease a) /\ c_w a = WWatching /\
+  c_pc a = Held -> ctx_view a <> CtxSessionDone -> holds s b = true ->
+  dead (s_kv s) (c_lease a) /\ (c_w a = WWatching \/ c_w a = WCancelling) /\
   (exists s' a', run step s (notify_steps i a) = Some s' /\
-                 nth_error (s_cs s') i = Some a' /\ c_ctx a' = CtxSessionDone).
+                 nth_error (s_cs s') i = Some a' /\ ctx_view a' = CtxSessionDone).
 Proof.
   intros s i j a b Hr Ha Hb Hij Pa Ca Hb'.
   assert (Hd : dead (s_kv s) (c_lease a)).
@@ -821,10 +861,11 @@ Proof.
   split; auto.
   pose proof (reachable_ok _ Hr) as (Hkv & Hnd & Hrange & Hcs).
   destruct (Hcs a (nth_error_In _ _ Ha)) as [_ (W1 & _)].
-  destruct (W1 Pa) as [_ [[Hw _]|[_ Hx]]]; [|congruence].
-  split; auto.
-  destruct (etcd_notify s i a Hr Ha Pa Hd Ca) as (s' & a' & H1 & H2 & H3 & _).
-  exists s', a'. auto.
+  split.
+  - destruct (W1 Pa) as [_ [[Hw _]|[[Hw|Hw] Hx]]]; auto.
+    exfalso. apply Ca. unfold ctx_view. rewrite Hx, Hw. reflexivity.
+  - destruct (etcd_notify s i a Hr Ha Pa Hd Ca) as (s' & a' & H1 & H2 & H3 & _).
+    exists s', a'. auto.
 Qed.
 
 (* the hypotheses of the statements above are satisfiable: a reachable state with
@@ -846,7 +887,7 @@ Example etcd_loss_satisfiable :
   exists s a b, run step sys_init
       [LNew 2; LNew 2; LCall 0 OpLock; LAcq 0; LCall 1 OpLock; LAcq 1; LRevoke 1; LPoll 1; LVerify 1] = Some s /\
     nth_error (s_cs s) 0 = Some a /\ nth_error (s_cs s) 1 = Some b /\
-    c_pc a = Held /\ c_ctx a = CtxLive /\ dead (s_kv s) (c_lease a) /\ holds s b = true.
+    c_pc a = Held /\ ctx_view a = CtxLive /\ dead (s_kv s) (c_lease a) /\ holds s b = true.
 Proof.
   eexists. eexists. eexists. split; [vm_compute; reflexivity|].
   split; [reflexivity|]. split; [reflexivity|]. split; [reflexivity|]. split; [reflexivity|].
